@@ -40,7 +40,12 @@ pub fn run(ctx: &mut Ctx) {
     for case in ctx.cases("dtree_small", 300, true) {
         // every elimination order for CNFs over <= 4 variables
         ctx.run_case("dtree_small", case, |ctx, rng| {
-            let cl = gen(rng, 4);
+            let mut cl = gen(rng, 4);
+            if rng.chance(1, 6) {
+                let at = rng.below(cl.len() + 1);
+                cl.insert(at, vec![]);
+                ctx.count("dtree_inputs_with_an_empty_clause", 1);
+            }
             let n = clauses_num_vars(&cl);
             for p in all_perms(n) {
                 dtree_case(ctx, &cl, &p, "all");
@@ -49,7 +54,13 @@ pub fn run(ctx: &mut Ctx) {
     }
     for case in ctx.cases("dtree", 1200, true) {
         ctx.run_case("dtree", case, |ctx, rng| {
-            let cl = gen(rng, 12);
+            let mut cl = gen(rng, 12);
+            // an empty clause is a clause too: it has to be a leaf (with no variables) like any other
+            if rng.chance(1, 6) {
+                let at = rng.below(cl.len() + 1);
+                cl.insert(at, vec![]);
+                ctx.count("dtree_inputs_with_an_empty_clause", 1);
+            }
             let n = clauses_num_vars(&cl);
             let cnf = clauses_to_cnf(&cl);
             let (name, perm): (&str, Vec<usize>) = match rng.below(4) {
